@@ -22,9 +22,9 @@ def __call__(self, handlermap):
             f(value)
 ```
 
-It is NOT part of `ZCV/Model` and the driver does not exercise it: it is tied to the code only by the exploration of
-the C16 check (`harness/zcv/props/c16.py`), which calls the real handler object with complete, incomplete,
-None-containing and case-variant-duplicate maps and recording callables.
+Tie to the code: the driver op `hcall` runs `callHandlers`, and the C16 check (`harness/zcv/props/c16.py`) compares verdict and
+sequence of callables called with the real handler object on random maps (complete, incomplete, with None, case variants,
+duplicates, names that are no basic keys) on every run.
 
 The handler map is a list of `(name, callable)` items in iteration order; a callable is `some id` (identified by a
 number) or `none` (Python `None`).  A Python `dict` has pairwise distinct names; the model does not need that.  The
